@@ -212,7 +212,7 @@ def regenerate_bounded():
 
 
 # checks whose theorems are about bounded_rops / bounded_wops and the entry frames built from them
-BOUNDED_BRIDGE = ('C05', 'C06', 'C07', 'C08', 'C16', 'C17')
+BOUNDED_BRIDGE = ('C02', 'C05', 'C06', 'C07', 'C08', 'C16', 'C17')
 
 
 def check_proofs(ctx, files, bridge=True):
